@@ -267,3 +267,82 @@ Definition parabolic_max (x : list Q) : Q * Q :=
   else let '(ip, mx) := peak3 (at_ (imax - 1)%Z) (at_ imax) (at_ (imax + 1)%Z) in
        (ip + inject_Z imax, mx).
 
+
+(* ---- the coarse offset delta_t -----------------------------------------------------
+   tmin = min(min(tsa), min(tsb));  x = zeros(n); y = zeros_like(x)
+   x[int32(floor((tsa - tmin) / tbin))] = 1;  y[int32(floor((tsb - tmin) / tbin))] = 1
+   delta_t = (parabolic_max(scipy.signal.correlate(x, y, mode="full"))[0] - x.shape[0] + 1) * tbin
+   Times and tbin in integer ticks (exact).  The histogram length n = x.shape[0]
+   (= int(np.ceil(tmax - tmin) / tbin) + 1, a float64 division) is an input: only n > every
+   bin index matters (IndexError otherwise) and whether the peak sits on the edge of the
+   correlation.  correlate(x, y, "full")[k] = sum_l x[l] * y[l - (k - (n-1))]
+   = number of (occupied x-bin i, occupied y-bin j) with i - j = k - (n-1). *)
+From Coq Require Import FMapPositive.
+
+Definition bin_of (tbin tmin t : Z) : Z := ((t - tmin) / tbin)%Z.      (* floor *)
+
+Definition lmin (l : list Z) : Z :=
+  match l with [] => 0%Z | x :: r => fold_left Z.min r x end.
+
+Definition occupied (tbin tmin : Z) (ts : list Z) : list Z :=
+  nodup Z.eq_dec (map (bin_of tbin tmin) ts).
+
+Definition pget (m : PositiveMap.t Z) (k : positive) : Z :=
+  match PositiveMap.find k m with Some c => c | None => 0%Z end.
+Definition pincr (m : PositiveMap.t Z) (k : positive) : PositiveMap.t Z :=
+  PositiveMap.add k (1 + pget m k)%Z m.
+
+(* key of lag i - j: its position k = lag + n - 1 in the full correlation, plus one *)
+Definition lag_key (n lag : Z) : positive := Z.to_pos (lag + n).
+Definition pair_keys (n : Z) (xb yb : list Z) : list positive :=
+  flat_map (fun i => map (fun j => lag_key n (i - j)%Z) yb) xb.
+
+Fixpoint vec_from (m : PositiveMap.t Z) (fuel : nat) (k : Z) : list Z :=
+  match fuel with
+  | O => []
+  | S f => pget m (Z.to_pos (k + 1)) :: vec_from m f (k + 1)%Z
+  end.
+
+Definition xcorr (n : Z) (xb yb : list Z) : list Z :=
+  vec_from (fold_left pincr (pair_keys n xb yb) (PositiveMap.empty Z)) (Z.to_nat (2 * n - 1)) 0%Z.
+
+(* None = a bin index >= n (IndexError in the source) *)
+Definition coarse_delta (n : Z) (den : positive) (tbin : Z) (tsa tsb : list Z) : option Q :=
+  let tmin := lmin (tsa ++ tsb) in
+  let xb := occupied tbin tmin tsa in
+  let yb := occupied tbin tmin tsb in
+  if existsb (fun b => (n <=? b)%Z) (xb ++ yb) then None
+  else let ip := fst (parabolic_max (map inject_Z (xcorr n xb yb))) in
+       Some (Qred ((ip - inject_Z n + 1) * tq den tbin)).
+
+(* first pass with a rational delta_t (seconds): same loop on ticks refined by the
+   denominator of delta_t, which is exact *)
+Definition first_pass_q (den : positive) (tbin : Z) (d : Q) (tsa tsb : list Z) : list Z :=
+  let k := Zpos (Qden d) in
+  first_pass (tbin * k)%Z (Qnum d * Zpos den)%Z (map (Z.mul k) tsa) (map (Z.mul k) tsb).
+
+Definition sync_rest (linear : bool) (den : positive) (tbin : Z) (tsa tsb : list Z) (ib1 : list Z)
+  : option sync_result :=
+  let qa := map (tq den) tsa in
+  let qb := map (tq den) tsb in
+  match interp_fcn linear qa ib1 qb with
+  | None => None
+  | Some (f1, _) =>
+      let ib2 := second_pass (tq den tbin) f1 qa qb ib1 in
+      match interp_fcn linear qa ib2 qb with
+      | None => None
+      | Some (f2, s) => Some (mkSync ib1 ib2 f2 s)
+      end
+  end.
+
+(* the whole function.  inl 0 = IndexError in the histogram; inl 1 = singular polyfit *)
+Definition sync_full (linear : bool) (n : Z) (den : positive) (tbin : Z) (tsa tsb : list Z)
+  : Z + (Q * sync_result) :=
+  match coarse_delta n den tbin tsa tsb with
+  | None => inl 0%Z
+  | Some d =>
+      match sync_rest linear den tbin tsa tsb (first_pass_q den tbin d tsa tsb) with
+      | None => inl 1%Z
+      | Some r => inr (d, r)
+      end
+  end.
